@@ -84,6 +84,12 @@ impl<'a, R: Read> BodyReader<'a, R> {
         self
     }
 
+    /// `on_failure` for the external verification harness
+    #[cfg(khttp_verif)]
+    pub fn verif_on_failure(self, flag: &'a AtomicBool) -> Self {
+        self.on_failure(flag)
+    }
+
     #[inline]
     fn note<T>(&self, res: io::Result<T>) -> io::Result<T> {
         if res.is_err() {
